@@ -71,6 +71,8 @@ fn main() {
                     std::process::exit(2);
                 }
             }
+            // literal-guided cases for this suite (empty unless the check passed a dictionary harvested from /repo's source)
+            suites::dict::gen(suite, &mut emit);
             sink.flush();
         }
         Some("exec") => {
@@ -86,9 +88,13 @@ fn main() {
                 match r {
                     Some(Some(())) => {}
                     Some(None) => out.observed = "harness-cannot-parse-case".into(),
-                    None => out.observed = "harness-panicked".into(),
+                    None => {
+                        // a panic that escaped the suite's own guards: the operations exercised here must not panic
+                        out.observed = "harness-panicked".into();
+                        out.fail("*", "the crate panicked while this case was executed (no property allows a panic here)".to_string());
+                    }
                 }
-                sink.line(&format!("{line}\t{}", out.observed));
+                sink.line(&format!("{line}\t{}", String::from_utf8_lossy(out.observed.as_bytes())));
                 // at most a handful of (distinct-property) oracle lines per case, messages bounded; the case text is not
                 // repeated (an empty case field refers to the case line just printed)
                 let mut printed: Vec<&str> = vec![];
@@ -97,7 +103,8 @@ fn main() {
                         continue;
                     }
                     printed.push(props.as_str());
-                    let mut m: String = msg.replace(['\t', '\n'], " ");
+                    // (a changed crate may hand out a str that is not valid UTF-8, e.g. sliced inside a character: keep the output well formed)
+                    let mut m: String = String::from_utf8_lossy(msg.as_bytes()).replace(['\t', '\n'], " ");
                     if m.len() > 600 {
                         let mut cut = 600;
                         while !m.is_char_boundary(cut) {
